@@ -86,6 +86,16 @@ func loadModule(m module, patterns []string) (*Prog, error) {
 		return nil, fmt.Errorf("load %s: %s", dir, strings.Join(errs, "; "))
 	}
 	prog, ssaPkgs := ssautil.Packages(pkgs, ssa.InstantiateGenerics)
+	// `//@ debugnames` in a package's contract file: build that package with debug info, so that contracts can name
+	// local variables that live in registers (loop invariants over locals such as a map built in the function)
+	for i, sp := range ssaPkgs {
+		if sp == nil || len(pkgs[i].GoFiles) == 0 {
+			continue
+		}
+		if data, err := os.ReadFile(filepath.Join(filepath.Dir(pkgs[i].GoFiles[0]), "zz_contracts_verif.go")); err == nil && strings.Contains(string(data), "//@ debugnames") {
+			sp.SetDebugMode(true)
+		}
+	}
 	prog.Build()
 	p := &Prog{mod: m, pkgs: pkgs, prog: prog, ssaPkgs: ssaPkgs, byPath: map[string]*ssa.Package{}, byName: map[string]*ssa.Package{}}
 	if len(pkgs) > 0 {
